@@ -224,3 +224,32 @@ def replay(ctx, path):
     r, _ = canon.real_read(data, nptdms)
     print("replay: read -> %s" % (r.get("exc") or "ok"))
     return 0 if r.get("ok") else 1
+
+
+def corpus(ctx, entry):
+    rp = entry["replay"]
+    data = bytes.fromhex(rp["file"])
+    nptdms = ctx.nptdms()
+    model = ctx.get_model() if ctx.build_ok else None
+    stats = dict(files=0, decoded=0, windows=0, streams=0, cuts=0)
+    dis, vio = [], []
+    if "cut" in rp:
+        full, ffull = canon.real_read(data, nptdms)
+        r, f = canon.real_read(data[:rp["cut"]], nptdms)
+        if not r.get("ok"):
+            vio.append(Violation("corpus: DAQmx file cut at %d: read raised %s" % (rp["cut"], r.get("exc")), rp))
+        elif full.get("ok"):
+            a, b = real_channel_values(f), real_channel_values(ffull)
+            for p, d in a.items():
+                for k, vals in d.items():
+                    if vals != b.get(p, {}).get(k, [])[:len(vals)]:
+                        vio.append(Violation("corpus: DAQmx file cut at %d: not a prefix of the uncut data" % rp["cut"], rp))
+        return dis, vio
+    # without the generator's description only the lazy/eager agreement part applies: reuse check_file with an empty expectation
+    import gen_daqmx as gd
+    old = gd.expected_values
+    gd.expected_values = lambda segs: {}
+    try:
+        return check_file(ctx, model, nptdms, [], data, stats)
+    finally:
+        gd.expected_values = old
